@@ -63,10 +63,11 @@ def r1(ctx):
     cm = ctx.repo.module("pyairtouch.comms")
     gd = Fn(ctx.repo, cm, "MessageRegistry.get_decoder")
     ctx.fn(cm, "MessageRegistry.get_decoder")
-    _fallback(ctx, R, gd, "comms.MessageRegistry.get_decoder", "self._decoder_map.get", "self._unsupported_decoder")
+    # by role: the fallback is whatever attribute __init__ binds to an UnsupportedMessageDecoder instance
     init = cm.get_class("MessageRegistry").methods["__init__"]
-    ok = any(isinstance(x, (ast.Assign, ast.AnnAssign)) and dotted(x.targets[0] if isinstance(x, ast.Assign) else x.target) == "self._unsupported_decoder" and isinstance(x.value, ast.Call) and dotted(x.value.func) == "UnsupportedMessageDecoder" for x in ast.walk(init))
-    ctx.check(ok, R, "comms.MessageRegistry:unsupported-decoder-instance", cm, init, "self._unsupported_decoder = UnsupportedMessageDecoder()", "different")
+    fb_attr = next((dotted(x.targets[0] if isinstance(x, ast.Assign) else x.target) for x in ast.walk(init) if isinstance(x, (ast.Assign, ast.AnnAssign)) and isinstance(getattr(x, "value", None), ast.Call) and (dotted(x.value.func) or "").split(".")[-1] == "UnsupportedMessageDecoder" and (dotted(x.targets[0] if isinstance(x, ast.Assign) else x.target) or "").startswith("self.")), None)
+    ctx.check(fb_attr is not None, R, "comms.MessageRegistry:unsupported-decoder-instance", cm, init, "__init__ keeps an UnsupportedMessageDecoder() instance as the fallback", "none")
+    _fallback(ctx, R, gd, "comms.MessageRegistry.get_decoder", "self._decoder_map.get", fb_attr or "self._unsupported_decoder")
     _unsupported(ctx, R, cm, "UnsupportedMessageDecoder", {("header.message_length",): 1}, "header.message_id")
     for gen in ("at4", "at5"):
         xm = ctx.repo.module(f"pyairtouch.{gen}.comms.x1F_ext")
@@ -149,10 +150,21 @@ def _unsupported(ctx, R, m, clsname, want_len, want_id):
         return
     rn = rets[0]
     kws = {}
-    for c in ast.walk(rn.ast):
-        if isinstance(c, ast.Call):
-            for k in c.keywords:
-                kws[k.arg] = k.value
+    # keywords of the returned result and of the message inside it; a local that holds the message is followed
+    todo = [rn.ast.value] if rn.ast.value is not None else []
+    seen_ = 0
+    while todo and seen_ < 12:
+        e_ = todo.pop()
+        seen_ += 1
+        if isinstance(e_, ast.Name):
+            e_ = f.expand(e_, rn)
+        for c in ast.walk(e_):
+            if isinstance(c, ast.Call):
+                for k in c.keywords:
+                    if k.arg and k.arg not in kws:
+                        kws[k.arg] = k.value
+                        if isinstance(k.value, ast.Name) and k.arg == "message":
+                            todo.append(k.value)
 
     def slice_of(e, lower: bool):
         e = f.expand(e, rn)
